@@ -32,6 +32,7 @@ from .mixture_model_utils import (
     log_pdf_to_affiliation_for_integration_models_with_inline_pa,
 )
 from .utils import _ProbabilisticModel
+from pb_bss import _verif
 
 
 @dataclass
@@ -221,6 +222,12 @@ class GCACGMMTrainer:
                 spatial_weight=spatial_weight,
                 spectral_weight=spectral_weight
             )
+            if _verif.ENABLED:
+                _verif.emit(
+                    'em_iteration', trainer=self, iteration=iteration, model=model,
+                    affiliation=affiliation, quadratic_form=quadratic_form,
+                    observation=observation, embedding=embedding,
+                )
 
         return model
 
